@@ -129,9 +129,10 @@ def e2_scenarios(tier):
   resub = dict(script="resubscribe", kinds=("fifo",))
   two = dict(script="two-kinds", kinds=("fifo", "lifo"))
   during = dict(script="resubscribe-during-delivery", kinds=("fifo",))
+  both = dict(script="two-kinds-one-publication", kinds=("fifo", "lifo"))      # both delivery threads at work at once (complete at K=28)
   if tier == "quick":
-    return [(late, 32), (during, 36)]        # thorough uses K >= 40 throughout, where the adequacy query shows every behaviour is covered
-  return [(late, 40), (resub, 40), (during, 40), (two, 38)]
+    return [(late, 32), (during, 36), (both, 28)]        # thorough uses K >= 40 throughout, where the adequacy query shows every behaviour is covered
+  return [(late, 40), (resub, 40), (during, 40), (two, 38), (both, 28)]
 
 
 DIFF_KW = dict(script="two-kinds", kinds=("fifo", "lifo"))
